@@ -418,7 +418,10 @@ func TestVerif_C14(t *testing.T) {
 				run6(s, c14Bounds{maxScans: 2, maxP: 2, maxT: 1, maxF: 1}, 24)
 			}
 			for _, s := range singles {
-				run(s, c14Bounds{maxScans: 2, maxP: 3, maxT: 2, maxF: 1}, 24, true)
+				run(s, c14Bounds{maxScans: 2, maxP: 2, maxT: 1, maxF: 1}, 24, true)
+				if len(s.init) == 1 && !strings.HasPrefix(s.init[0].Kind, "nat-") {
+					run(s, c14Bounds{maxScans: 2, maxP: 3, maxT: 2, maxF: 0}, 24, true)
+				}
 				run(s, c14Bounds{maxScans: 1, maxP: 2, maxT: 1}, 8, false)
 			}
 			for _, s := range pairs {
